@@ -5,3 +5,51 @@
 
 // owner: group a4. `super::super` is the repository module `source`.
 use super::super::*;
+
+/// Plain-number view of the private session state of an `NtpSource`.
+#[derive(Debug, Clone, PartialEq, Eq, Hash)]
+pub struct Digest {
+    pub reach: u8,
+    pub tries: usize,
+    pub last_poll: i8,
+    pub remote_min_poll: i8,
+    pub have_deny_rstr: bool,
+    pub pending: bool,
+    pub stratum: u8,
+    pub reference_id: [u8; 4],
+    pub source_id: [u8; 4],
+    /// 0 = V4, 1 = V4UpgradingToV5, 2 = UpgradedToV5, 3 = V5
+    pub version: u8,
+    pub upgrade_tries_left: u8,
+    pub cookies: Option<usize>,
+    pub bloom_full: bool,
+}
+
+pub fn digest<C: SourceController>(s: &NtpSource<C>) -> Digest {
+    let (version, upgrade_tries_left) = match s.protocol_version {
+        ProtocolVersion::V4 => (0, 0),
+        ProtocolVersion::V4UpgradingToV5 { tries_left } => (1, tries_left),
+        ProtocolVersion::UpgradedToV5 => (2, 0),
+        ProtocolVersion::V5 => (3, 0),
+    };
+    Digest {
+        reach: s.reach.0,
+        tries: s.tries,
+        last_poll: s.last_poll_interval.as_log(),
+        remote_min_poll: s.remote_min_poll_interval.as_log(),
+        have_deny_rstr: s.have_deny_rstr_response,
+        pending: s.current_request_identifier.is_some(),
+        stratum: s.stratum,
+        reference_id: s.reference_id.to_bytes(),
+        source_id: s.source_id.to_bytes(),
+        version,
+        upgrade_tries_left,
+        cookies: s.nts.as_ref().map(|n| n.cookies.len()),
+        bloom_full: s.bloom_filter.full_filter().is_some(),
+    }
+}
+
+/// The source's current copy of the remote Bloom filter once complete.
+pub fn bloom_bytes<C: SourceController>(s: &NtpSource<C>) -> Option<Vec<u8>> {
+    s.bloom_filter.full_filter().map(|f| f.as_bytes().to_vec())
+}
